@@ -21,6 +21,10 @@ class Cls:
     def __init__(self, cname):
         self.cname = cname
         self.fields = []          # declaration order
+        # a sub-tree that is enabled by a toggle of its own: selfmode "port" = the parent declares
+        # rRecur(sub, rEnabledBy(sub/<selftog>)), "self" = the table starts with rSelf(T, rEnabledBy(<selftog>))
+        self.selfmode = None
+        self.selftog = None
 
     def field(self, name):
         for f in self.fields:
@@ -152,17 +156,18 @@ class AppGen:
         f["dflt"] = ("K", self.rand_val(kind, f))
         return f
 
-    def gen_class(self, depth, guards_allowed):
+    def gen_class(self, depth, guards_allowed, selfmode=None):
         r = self.rng
         sh = self.shape
         c = Cls("%s_C%d" % (self.appid, self.ncls))
+        c.selfmode = selfmode
         self.ncls += 1
         nparams = r.randint(sh["minp"], sh["maxp"])
         narr = r.randint(sh.get("minarr", 0), sh["maxarr"])
         nsub = r.randint(sh["minsub"], sh["maxsub"]) if depth < sh["depth"] else 0
         nchain = sh.get("chain", 0) if depth == 0 else 0
         neleaf = r.randint(0, sh["eleaf"]) if sh.get("eleaf") else 0
-        names = self.fresh_names(nparams + narr + nsub + 3 + nchain + 3 * neleaf + (6 if sh.get("leafen") else 0))
+        names = self.fresh_names(nparams + narr + nsub + 3 + nchain + 3 * neleaf + (6 if sh.get("leafen") else 0) + (1 if selfmode else 0))
         used = []
 
         def nm():
@@ -304,7 +309,7 @@ class AppGen:
         if sh.get("leafen"):
             # rEnabledBy on a parameter itself (not only on sub-trees): while its toggle is off the parameter keeps its
             # (constant) default and ignores writes
-            togs = [p for p in params if p["kind"] == "T" and p["dflt"][0] == "K" and not p["deps"]]
+            togs = [p for p in params if p["kind"] == "T" and p["dflt"][0] == "K" and not p["deps"] and not p.get("selftog")]
             for p in list(params):
                 if p["dflt"][0] != "K" or p["deps"] or r.random() > sh["leafen"]:
                     continue
@@ -318,6 +323,14 @@ class AppGen:
                 p["en"] = t["name"]
                 if r.random() < 0.7:
                     t["dflt"] = ("K", ("F",))        # mostly off in a fresh instance: the file has to switch it on first
+        if selfmode:
+            # the toggle that enables this very sub-tree: constant default (mostly off: the file has to switch it on
+            # first), depends on nothing, enables nothing else
+            t = self.gen_param(nm(), "T")
+            t["selftog"] = True
+            t["dflt"] = ("K", ("F",) if r.random() < 0.7 else ("T",))
+            c.selftog = t["name"]
+            params.insert(r.randint(0, len(params)), t)
         for p in params:
             c.fields.append(p)
         for i in range(narr):
@@ -393,10 +406,18 @@ class AppGen:
                 lf["dstyle"] = r.choice(["plain", "rep"])
                 f["leaves"].append(lf)
             c.fields.insert(r.randint(0, len(c.fields)), f)
-        toggles = [p for p in params if p["kind"] == "T"]
+        toggles = [p for p in params if p["kind"] == "T" and not p.get("selftog")]
+        # below a sub-tree that hides its contents while it is off (embedded + guard, self-enabled) no pointer sub-trees
+        below_allowed = guards_allowed and not selfmode
         for i in range(nsub):
-            modes = ["emb", "embs", "ptr", "ptrs", "embg"] if guards_allowed else ["emb", "embs"]
+            modes = ["emb", "embs", "ptr", "ptrs", "embg"] if below_allowed else ["emb", "embs"]
             mode = r.choice(modes)
+            sub_self = None
+            if sh.get("selfen") and r.random() < sh["selfen"]:
+                # the sub-tree is enabled by a toggle that lives inside it
+                sub_self = r.choice(["port", "self", "self"] if mode != "emb" else ["port", "port", "self"])
+                if sub_self == "port":
+                    mode = "emb"         # rRecur(sub, rEnabledBy(sub/t)): port_is_enabled knows this form for plain names only
             f = {"name": nm(), "role": "sub", "mode": mode, "n": r.randint(2, 3), "en": None}
             if sh.get("subdeps") and r.random() < sh["subdeps"]:
                 # a sub-tree that is re-initialised when a port of its parent changes: rRecur(sub, rDepends(port))
@@ -410,11 +431,17 @@ class AppGen:
                     toggles.append(t)
                     c.fields.insert(r.randint(0, len(c.fields)), t)
                 f["en"] = r.choice(toggles)["name"]
-            if mode == "embg":
+            if sub_self:
+                if mode == "embg":
+                    f["mode"] = "emb"
+                f["cls"] = self.gen_class(depth + 1, guards_allowed=False, selfmode=sub_self)
+                if sub_self == "port":
+                    f["selfport"] = f["cls"].selftog
+            elif mode == "embg":
                 f["mode"] = "emb"
                 f["cls"] = self.gen_class(depth + 1, guards_allowed=False)
             else:
-                f["cls"] = self.gen_class(depth + 1, guards_allowed=guards_allowed)
+                f["cls"] = self.gen_class(depth + 1, guards_allowed=below_allowed if selfmode else guards_allowed)
             c.fields.insert(r.randint(0, len(c.fields)), f)
         if sh.get("prefixnames"):
             r.shuffle(c.fields)          # the longer of two names may stand first in the table
@@ -458,6 +485,12 @@ def flatten(root):
                 here[f["name"]] = len(insts)
                 insts.append(it)
                 mine.append(it)
+        if cls.selftog:
+            # everything in this sub-tree except the toggle itself is visible only while the toggle is on
+            guards = list(guards) + [(here[cls.selftog], False)]
+            for it in mine:
+                if it.f["name"] != cls.selftog:
+                    it.guards = list(guards)
         for it in mine:
             if it.f.get("en"):
                 it.guards.append((here[it.f["en"]], False))
@@ -681,6 +714,8 @@ def descriptor(app):
     ts = []
 
     def tree(cls, depth):
+        if cls.selfmode == "self":
+            ts.append("%d,%s,%s,-,-" % (depth, b"self:".hex(), cls.selftog.encode().hex()))
         for f in cls.fields:
             if f["role"] == "param":
                 meta = ["-", "-", "-"]
@@ -699,6 +734,8 @@ def descriptor(app):
                     ts.append("%d,%s,-,-,-" % (depth, eleaf_port_name(f, lf).encode().hex()))
             else:
                 en = f["en"].encode().hex() if f["en"] else "-"
+                if f.get("selfport"):
+                    en = (f["name"] + "/" + f["selfport"]).encode().hex()
                 sd = "".join(d + "," for d in f["sdeps"]).encode().hex() if f.get("sdeps") else "-"
                 ts.append("%d,%s,%s,%s,-" % (depth, port_name(f).encode().hex(), en, sd))
                 tree(f["cls"], depth + 1)
@@ -999,6 +1036,15 @@ def gen_class_cxx(cls, out, app):
     # change hook
     L.append("    void changed(const char *n) {")
     for f in params:
+        if f.get("selftog"):
+            # switching the sub-tree on or off re-initialises everything in it except the toggle
+            n_ = f["name"]
+            L.append("        if(!strncmp(n, \"%s:\", %d)) {" % (n_, len(n_) + 1))
+            L.append("            if(%s == prev_%s) return;" % (n_, n_))
+            L.append("            bool keep = %s; reset(); %s = keep; prev_%s = keep;" % (n_, n_, n_))
+            L.append("            return;")
+            L.append("        }")
+            continue
         ds = ldesc(f)
         body = []
         for g in ds:
@@ -1028,8 +1074,13 @@ def gen_class_cxx(cls, out, app):
     L.append("    }")
     # dump of the enabled view
     L.append("    void dump(const std::string &pre, std::vector<std::string> &out) const {")
+    if cls.selftog:
+        L.append("        out.push_back(pre + \"%s=\" + %s);" % (cls.selftog, dump_expr("T", cls.selftog)))
+        L.append("        if(!%s) return;" % cls.selftog)
     for f in cls.fields:
         n = f["name"]
+        if f["role"] == "param" and f.get("selftog"):
+            continue
         if f["role"] == "param":
             L.append("        %sout.push_back(pre + \"%s=\" + %s);" % (("if(%s) " % f["en"]) if f.get("en") else "", n, dump_expr(f["kind"], n)))
         elif f["role"] == "array":
@@ -1062,6 +1113,8 @@ def gen_class_cxx(cls, out, app):
     L.append("#undef rChangeCb")
     L.append("#define rChangeCb obj->changed(data.port->name);")
     L.append("const rtosc::Ports %s::ports = {" % cn)
+    if cls.selfmode == "self":
+        L.append("    rSelf(%s, rEnabledBy(%s))," % (cn, cls.selftog))
     for f in cls.fields:
         n = f["name"]
         if f["role"] == "param":
@@ -1103,6 +1156,8 @@ def gen_class_cxx(cls, out, app):
                 L.append("        rBOILS_BEGIN if(!strcmp(\"\", args)) %s else %s rBOILS_END}," % (rd, wr))
         else:
             en = (" rEnabledBy(%s)," % f["en"]) if f["en"] else ""
+            if f.get("selfport"):
+                en = " rEnabledBy(%s/%s)," % (n, f["selfport"])
             if f.get("sdeps"):
                 en += " rDepends(%s)," % ", ".join(f["sdeps"])
             sc = f["cls"].cname
@@ -1171,6 +1226,13 @@ SHAPES = [
     # A10 the same constructs two levels deep
     (219, dict(minp=2, maxp=3, minarr=0, maxarr=1, minsub=1, maxsub=2, depth=2, pdep=0.6, leafen=0.55, subdeps=0.6, eleaf=1,
                prefixnames=0.3, arrstyles=True)),
+    # added for the defect two observers reported on the unchanged library: sub-trees enabled by a toggle that lives INSIDE the
+    # sub-tree - rRecur(sub, rEnabledBy(sub/t)) (port_is_enabled's `subport` branch) and rSelf(T, rEnabledBy(t)) in the
+    # sub-tree's own table (doc/Guide.adoc)
+    # A11 one level, small
+    (311, dict(minp=2, maxp=4, maxarr=1, minsub=3, maxsub=4, depth=1, pdep=0.5, selfen=0.8)),
+    # A12 two levels (self-enabled sub-trees below each other and below guarded ones), presets, rDepends on sub-trees
+    (312, dict(minp=2, maxp=3, maxarr=1, minsub=2, maxsub=2, depth=2, pdep=0.6, selfen=0.6, subdeps=0.4, leafen=0.3)),
 ]
 
 _POOL = None
